@@ -5,7 +5,7 @@
 package metadata
 
 // Every function under contract in this package also serves the properties that depend on the whole package.
-//@ package-props C14 C15
+//@ package-props C14 C15 C12
 
 // The three value maps are only touched under mu.
 //@ monitor Metadata.mu protects valuesInt, valuesBool, valuesStr invariant MetaInv
